@@ -1,3 +1,4 @@
 pub fn main() {
     println!("cargo::rerun-if-changed=testdata/");
+    println!("cargo::rustc-check-cfg=cfg(okane_verif)");
 }
